@@ -214,7 +214,7 @@ def run(ctx):
                 if o[0] == "agg" and o[1] in F.fns and F.fns[o[1]].kind == "Closure":
                     c = F.fns[o[1]]
                     r = c.origin_local(0)
-                    ok = est_callee is not None and r[0] == "call" and r[1] == est_callee and r[2][1] == ("param", 2)
+                    ok = est_callee is not None and r[0] == "call" and ultimate_callee(F, r[1]) == ultimate_callee(F, est_callee) and r[2][-1] == ("param", 2)
                     ctx.check(ok, "R06.4", "%s|sample-uses-same-estimator" % c.name,
                               "the estimator handed to the sampler is the same function that estimates the incoming key", c.where(), fmt(r))
                     sample_ctor_calls.append(c.name)
@@ -305,3 +305,14 @@ def cmp_values(a, b, signs):
         s = signs[a[2]]
         return s if a[1] == ("param", 1) else -s
     raise ValueError("comparator operand not understood: %s vs %s" % (fmt(a)[:40], fmt(b)[:40]))
+
+
+def ultimate_callee(F, name, depth=0):
+    """follow forwarding wrappers (`estimate(h) = self.inner.read().estimate(h)`) to the innermost estimator"""
+    f = F.fns.get(name)
+    if f is None or depth > 4:
+        return name
+    r = f.origin_local(0)
+    if r[0] == "call" and r[1] in F.fns and r[2] and r[2][-1][0] == "param":
+        return ultimate_callee(F, r[1], depth + 1)
+    return name
